@@ -6,6 +6,12 @@ CONSTANTS
   BareSendDiscover = FALSE
   UnbufferedSelRecvReply = FALSE
   BareSendMsg = FALSE
+  BareRetry = FALSE
+  CheckThenActIncoming = FALSE
+  BareSendConnect = FALSE
+  MaxRetry = 0
+  MaxDirect = 0
+  ConnCap = 1
   BatchCap = 1
   DiscCap = 1
   SendCap = 1
